@@ -159,6 +159,8 @@ class Harness:
                 shape = c.shapes.get(p)
             if shape is None:
                 raise KeyError(f"no shape for {p}")
+            if shape.kind == "alias":
+                continue
             args[p] = bindings.to_native(shape, inputs.get(p), self.opaque)
         gh = {}
         for g, shape in c.ghost.items():
@@ -167,6 +169,10 @@ class Harness:
         for g, j in (ghost or {}).items():
             if g.startswith("now_") and j is not None:
                 gh[g] = bindings.to_native(self.spec.Time, j, self.opaque)
+        for p in self.params:
+            shape = c.self_shape if p == "self" else c.shapes.get(p)
+            if shape is not None and shape.kind == "alias":
+                args[p] = eval(shape.expr, dict(ns, **args))  # pylint: disable=eval-used
         ns.update(args)
         ns.update(gh)
         for an, aexpr in getattr(c, "aliases", {}).items():
@@ -212,10 +218,15 @@ class Harness:
         unpatch = self.patch_clock(ns)
         exc = None
         result = None
+        async def _call():
+            # inside a running event loop (the code under test may create tasks); tasks left
+            # over are cancelled when the loop closes
+            r = self.fn(**args)
+            if inspect.iscoroutine(r):
+                r = await r
+            return r
         try:
-            result = self.fn(**args)
-            if inspect.iscoroutine(result):
-                result = asyncio.run(result)
+            result = asyncio.run(_call())
         except BaseException as e:  # pylint: disable=broad-except
             exc = e
         finally:
@@ -306,6 +317,8 @@ class Harness:
             inputs = {}
             for p in self.params:
                 shape = c.self_shape if p == "self" else c.shapes.get(p)
+                if shape.kind == "alias":
+                    continue
                 inputs[p] = bindings.gen_json(shape, rng, seeds, size)
             ghost = {g: bindings.gen_json(s, rng, seeds, size) for g, s in c.ghost.items()}
             t_us = 0
